@@ -166,6 +166,13 @@ def fam_singular(g, prop, count, types, fn="gssv", nmax=7):
             n = g.r.randint(1, nmax)
             mode = g.r.choice(modes)
             A = singular_matrix(g, n, is_cplx(ty), mode)
+            if fn == "gssvx" and g.r.random() < 0.5:
+                # badly scaled rows / columns (powers of two: singularity stays exact): equilibration really scales A
+                sp = g.r.choice([4, 8])
+                which = g.r.choice(["rows", "cols", "both"])
+                rs = [2.0 ** g.r.randint(-sp, sp) if which in ("rows", "both") else 1.0 for _ in range(n)]
+                cs = [2.0 ** g.r.randint(-sp, sp) if which in ("cols", "both") else 1.0 for _ in range(n)]
+                A = {(a, b): (v[0] * rs[a] * cs[b], v[1] * rs[a] * cs[b]) for (a, b), v in A.items()}
             lst.append(lu_scenario(g, "%s-sing%s-%05d-%s" % (prop, mode, i, ty), ty, n, fn=fn, A=A))
         out[ty] = lst
     return out
@@ -384,7 +391,7 @@ def scaled_matrix(g, n, cplx, spread):
 def gssvx_opts(g, fn="gssvx", **over):
     r = g.r
     o = {"default": 0, "ColPerm": r.choice(ORDERINGS[:4]), "u": float(r.choice([1.0, 1.0, 0.5, 0.125, 0.0])), "Sym": 1 if r.random() < 0.15 else 0,
-         "Equil": r.choice([0, 1, 1]), "Trans": r.choice([0, 1, 2]), "IterRefine": r.choice([0, 0, 1, 2]),
+         "Equil": r.choice([0, 1, 1]), "Trans": r.choice([0, 1, 2]), "IterRefine": r.choice([0, 0, 1, 2, 3]),
          "PivotGrowth": r.choice([0, 1]), "Cond": r.choice([0, 1])}
     o.update(over)
     return o
@@ -474,7 +481,8 @@ def screen_scenario(g, sid, ty, routine, corrupts, mode):
     n = r.randint(2, 5)
     A = scaled_matrix(g, n, cplx, 2)
     B = g.rhs_for(A, n, 2, cplx)
-    lines = ["tune " + " ".join(map(str, g.tune()))] + g.mat_lines(A, n, n, "NC", cplx) + g.rhs_lines(B, n, 2, n + 1, cplx)
+    fmt = r.choice(["NC", "NR"]) if routine in ("gssv", "gssvx", "gsisx") else "NC"       # the drivers accept both orientations
+    lines = ["tune " + " ".join(map(str, g.tune()))] + g.mat_lines(A, n, n, fmt, cplx) + g.rhs_lines(B, n, 2, n + 1, cplx)
     ilu = routine == "gsisx"
     lines += opt_lines({"iludefault" if ilu else "default": 0, "ColPerm": NATURAL, "Equil": 1})
     if routine != "gssv":
@@ -917,6 +925,8 @@ def fam_ilu(g, prop, count, types, nmax=8):
                  "Norm": r.choice([0, 1, 2]), "MILU": r.choice([0, 0, 1, 2, 3]), "FillTol": float(r.choice([2.0 ** -7, 0.01, 2.0 ** -20])),
                  "RowPerm": r.choice([0, 0, 1]), "Trans": r.choice([0, 1, 2]), "Equil": r.choice([0, 1]), "PivotGrowth": r.choice([0, 1]), "Cond": r.choice([0, 1]),
                  "Sym": r.choice([0, 0, 1])}
+            if r.random() < 0.3:
+                o["MILUDim"] = float(r.choice([2.0, 3.0, 1.0]))
             fmt = r.choice(["NC", "NC", "NR"])
             if cplx and fmt == "NR" and o["Trans"] == 2:
                 o["Trans"] = 1
@@ -1010,6 +1020,56 @@ def fam_ilu_split(g, prop, count, types):
     return out
 
 
+def heap_scenario(g, sid, way, n, keys, ops):
+    """ops: list of ("I", i) / ("E",) / ("F", i) / ("D", i, key)"""
+    toks = []
+    for o in ops:
+        toks.append(o[0] + (str(o[1]) if len(o) > 1 else "") + ((":%d" % o[2]) if len(o) > 2 else ""))
+    return {"id": sid, "lines": ["call heap %d %d" % (way, n), " ".join(str(float(k)) for k in keys), " ".join(toks)], "n": n}
+
+
+def fam_heap(g, prop, tlc_hists, count):
+    """the heap routines of MC64 one operation at a time.  (a) every TLC-enumerated history 'insert all N rows in some
+    order, remove one from the middle' followed by extraction of the rest, under several key patterns with ties, for both
+    heap orientations; (b) seeded random operation sequences on up to 12 rows (insert, extract, remove, improve a key)"""
+    r = g.r
+    lst = []
+    pats = {5: [[1, 2, 3, 4, 5], [3, 1, 2, 1, 3], [2, 2, 1, 2, 2], [5, 4, 3, 2, 1], [1, 1, 1, 2, 2], [2, 3, 1, 3, 2]]}
+    k = 0
+    for h in tlc_hists:
+        n = max(o[1] for o in h)
+        for way in (2, 1):
+            keys = r.choice(pats[5]) if n == 5 else [r.randint(1, 3) for _ in range(n)]
+            ops = [tuple(o) for o in h] + [("E",)] * (n - 1)
+            lst.append(heap_scenario(g, "%s-heapenum-%05d-d" % (prop, k), way, n, keys, ops)); k += 1
+    for i in range(count):
+        n = r.randint(4, 12)
+        way = r.choice([2, 2, 1])
+        keys = [r.randint(1, r.choice([2, 3, 6])) for _ in range(n)]
+        cur = list(keys)
+        inside = set()
+        ops = []
+        for _ in range(r.randint(n, 4 * n)):
+            c = r.random()
+            out = [x for x in range(1, n + 1) if x not in inside]
+            if out and (c < 0.45 or not inside):
+                x = r.choice(out); inside.add(x); ops.append(("I", x))
+            elif c < 0.65:
+                # the harness hands out the root; which member that is (ties) is followed by the model from the event.
+                # The generator only guesses, an operation that turns out illegal is skipped by the harness.
+                best = (min if way != 1 else max)(inside, key=lambda x: cur[x - 1])
+                inside.discard(best); ops.append(("E",))
+            elif c < 0.85:
+                x = r.choice(sorted(inside)); inside.discard(x); ops.append(("F", x))
+            else:
+                x = r.choice(sorted(inside))
+                cur[x - 1] = cur[x - 1] - 1 if way != 1 else cur[x - 1] + 1
+                ops.append(("D", x, cur[x - 1]))
+        ops += [("E",)] * (len(inside) + 2)
+        lst.append(heap_scenario(g, "%s-heaprand-%05d-d" % (prop, i), way, n, keys, ops))
+    return {"d": lst}
+
+
 # ----------------------------------------------------------------------------- C17
 def fam_ldperm(g, prop, count, types, exhaustive3=False):
     """?ldperm(job 5) on patterns with power-of-two weights (ties, zero diagonals, structurally singular ones) and on
@@ -1041,8 +1101,22 @@ def fam_ldperm(g, prop, count, types, exhaustive3=False):
             if not P:
                 P = {(0, 0)}
             cases.append((n, P, g.r.choice(["tie", "tie", "int"])))
+        # orders 6..10 with small-integer magnitudes: several augmentations with longer paths and heaps of four and more rows
+        # (sift-up / sift-down / removal from the middle of the heap all run), many ties on tight edges
+        for i in range(2 * k):
+            n = g.r.randint(6, 10)
+            dens = g.r.uniform(0.3, 0.8)
+            P = {(a, b) for a in range(n) for b in range(n) if g.r.random() < dens}
+            P = g.ensure_structurally_nonsingular(P, n)
+            cases.append((n, P, "int9"))
         for i, (n, P, tag) in enumerate(cases):
             r = g.r
+            if tag == "int9":
+                mags = r.choice([list(range(1, 10)), [1, 2, 3], [1, 2, 4], [1, 2, 3, 4, 6]])
+                A = {kk: (float(r.choice([1, -1]) * r.choice(mags)), 0.0) if (not cplx or r.random() < 0.5) else (0.0, float(r.choice(mags))) for kk in P}
+                lines = g.mat_lines(A, n, n, "NC", cplx) + ["call ldperm 5", "destroy all", "ledger"]
+                lst.append({"id": "%s-ldpermint9-%05d-%s" % (prop, i, ty), "lines": lines, "n": n})
+                continue
             fl = (r.random() < 0.2 and tag == "r") or tag == "int"
             span = r.choice([2, 6, 30]) if tag not in ("tie", "int") else r.choice([1, 2, 3])
             if tag == "int":
@@ -1226,7 +1300,11 @@ def mt_scenario(g, sid, ty):
     elif kind == "gssvx":
         lines += opt_lines(gssvx_opts(g, Cond=1, IterRefine=r.choice([1, 2]), PivotGrowth=1)) + g.rhs_lines(B, n, 2, n, cplx) + ["nowork", "call gssvx"]
     elif kind == "gsisx":
-        lines += opt_lines({"iludefault": 0, "ColPerm": r.choice([NATURAL, COLAMD]), "RowPerm": r.choice([0, 1]), "Cond": 1}) + g.rhs_lines(B, n, 2, n, cplx) + ["nowork", "call gsisx"]
+        o = {"iludefault": 0, "ColPerm": r.choice([NATURAL, COLAMD]), "RowPerm": r.choice([0, 1]), "Cond": 1}
+        if r.random() < 0.6:      # modified ILU with real dropping: the compensation and its damping factor are exercised
+            o.update({"MILU": r.choice([1, 2, 3]), "MILUDim": float(r.choice([2.0, 3.0])), "DropTol": float(r.choice([2.0 ** -4, 0.25, 0.5])),
+                      "DropRule": r.choice([DROP_BASIC, DROP_BASIC | DROP_AREA, DROP_BASIC | DROP_PROWS])})
+        lines += opt_lines(o) + g.rhs_lines(B, n, 2, n, cplx) + ["nowork", "call gsisx"]
     elif kind == "gstrf":
         lines += opt_lines({"default": 0, "ColPerm": r.choice([NATURAL, COLAMD, MMD_ATA])}) + ["call gstrf", "requireok"] + g.rhs_lines(B, n, 2, n, cplx) + ["call gstrs %d" % r.choice([0, 1]), "call gscon 1"]
     elif kind == "order":
@@ -1243,6 +1321,19 @@ def repeat_scenario(g, sid, ty):
     r = g.r
     a = mt_scenario(g, sid, ty)
     b = mt_scenario(g, sid, ty)
+    if r.random() < 0.5:
+        # B = the neighbour of A: same data, one option changed (a cache keyed on too little would be filled by B)
+        alt = {"MILUDim": ["0x1.0p+1", "0x1.8p+1"], "MILU": ["1", "2", "3"], "Trans": ["0", "1", "2"], "Equil": ["0", "1"], "u": ["0x1.0p+0", "0x1.0p-3"],
+               "DropTol": ["0x1.0p-4", "0x1.0p-1"], "ColPerm": ["0", "3"], "IterRefine": ["1", "2"], "RowPerm": ["0", "1"]}
+        bl = list(a["lines"])
+        idx = [k for k, ln in enumerate(bl) if ln.startswith("opt ") and ln.split()[1] in alt]
+        if idx:
+            k = r.choice(idx)
+            key = bl[k].split()[1]
+            cur = bl[k].split()[2]
+            others = [v for v in alt[key] if v != cur] or alt[key]
+            bl[k] = "opt %s %s" % (key, r.choice(others))
+            b = {"lines": bl, "n": a["n"]}
     lines = ["use 0"] + a["lines"] + ["use 1"] + b["lines"] + (["use 3"] + mt_scenario(g, sid, ty)["lines"] if r.random() < 0.5 else []) + ["use 2", "mark repeat"] + a["lines"]
     # the mark must precede the *last* call of the repeated block only: a block has 1..3 calls; compare the first of them
     return {"id": sid, "lines": lines, "n": a["n"]}
